@@ -28,7 +28,7 @@ public:
   }
 };
 
-struct Conf { const char *name; std::string body; bool script; bool reduction; int natoms; };
+struct Conf { const char *name; std::string body; bool script; bool reduction; int natoms; int long_run = 0; };
 
 static std::vector<Conf> menu()
 {
@@ -53,6 +53,20 @@ static std::vector<Conf> menu()
                "scriptedColvarForces on\n" + cv3 + "harmonic {\n name h1\n colvars d1\n centers 1.0\n forceConstant 2.0\n}\n"
                                                     "harmonic {\n name h2\n colvars d2\n centers 2.0\n forceConstant 1.0\n}\n",
                true, false, 5});
+  // multiple-time-step variables: the set of variables that are awake, hence the list of work items, changes from step to
+  // step (2 -> 3: d2 replaces d1 with the same number of components); explored over 4 steps (0..3) with few preemptions
+  {
+    Conf c{"multiple-time-step-variables",
+           "colvar {\n name d1\n timeStepFactor 2\n distance {\n group1 { atomNumbers 1 2 }\n group2 { atomNumbers 3 }\n }\n}\n"
+           "colvar {\n name d2\n timeStepFactor 3\n distance {\n group1 { atomNumbers 3 }\n group2 { atomNumbers 4 }\n }\n}\n"
+           "colvar {\n name a\n angle {\n group1 { atomNumbers 1 }\n group2 { atomNumbers 3 }\n group3 { atomNumbers 4 5 }\n }\n}\n"
+           "harmonic {\n name h1\n colvars d1\n timeStepFactor 2\n centers 1.0\n forceConstant 2.0\n}\n"
+           "harmonic {\n name h2\n colvars d2\n timeStepFactor 3\n centers 2.0\n forceConstant 1.5\n}\n"
+           "harmonic {\n name h3\n colvars a\n centers 80.0\n forceConstant 0.01\n}\n",
+           false, false, 5};
+    c.long_run = 4;
+    m.push_back(c);
+  }
   // (OPES' own parallel regions are compiled only with -DOPES_THREADING, which no build system of the
   //  repository defines: they are not part of this build and are left out)
   return m;
@@ -221,8 +235,8 @@ int main(int argc, char **argv)
           Result r;
           for (int k = 0; k < reps; k++) {
             std::vector<int> none;
-            Outcome ref = execute(c, VSCHED_SERIAL, 1, none, nsteps, "off");
-            Outcome o = execute(c, VSCHED_FREE, T, none, nsteps, c.reduction ? "inner_loop" : "cvcs");
+            Outcome ref = execute(c, VSCHED_SERIAL, 1, none, c.long_run ? c.long_run : nsteps, "off");
+            Outcome o = execute(c, VSCHED_FREE, T, none, c.long_run ? c.long_run : nsteps, c.reduction ? "inner_loop" : "cvcs");
             r.count("evaluations");
             r.count("transitions", nsteps);
             r.seen("nontrivial", fnv(std::string(c.name) + std::to_string(T)));
@@ -265,6 +279,7 @@ int main(int argc, char **argv)
     for (int T = 2; T <= Tmax; T++) {
       // two steps with two threads (run-to-run state carried over), one step with more threads
       int b = thorough ? (T <= 3 ? 2 : 1) : 1;
+      if (confs[ci].long_run) { if (T == 2) jobs.push_back({ci, T, thorough ? 1 : 0, confs[ci].long_run}); continue; }
       jobs.push_back({ci, T, b, T == 2 ? 2 : 1});
     }
 
